@@ -254,11 +254,34 @@ func cmdCheck(args []string) int {
 	if *tier == "thorough" {
 		timeout = 120000
 	}
-	Discharge(cc.obls, timeout, runtime.NumCPU())
-	sortObls(cc.obls)
-
 	kfs := loadKnown(*verif)
 	lock := loadLock(*verif, *prop)
+	if *tier == "quick" && !*writeLock {
+		// obligations that did not discharge on the pinned tree are not claimed; do not spend the quick budget on them
+		skip := map[string]bool{}
+		for _, n := range lock.Unclaimed {
+			skip[n] = true
+		}
+		for _, o := range cc.obls {
+			if skip[o.Name] {
+				o.Status = "undecided"
+				o.Res = SolverResult{Verdict: "not-attempted-unclaimed"}
+				o.Kind = "skip:" + o.Kind
+			}
+		}
+	}
+	var todo []*Obligation
+	for _, o := range cc.obls {
+		if !strings.HasPrefix(o.Kind, "skip:") {
+			todo = append(todo, o)
+		}
+	}
+	Discharge(todo, timeout, runtime.NumCPU())
+	for _, o := range cc.obls {
+		o.Kind = strings.TrimPrefix(o.Kind, "skip:")
+	}
+	sortObls(cc.obls)
+
 	locked := map[string]bool{}
 	for _, n := range lock.Obligations {
 		locked[n] = true
@@ -380,6 +403,11 @@ func cmdCheck(args []string) int {
 		fmt.Println(l)
 	}
 	if *verbose {
+		for _, o := range cc.obls {
+			if o.Res.Ms > 2000 {
+				fmt.Printf("slow: %s %s %s %dms\n", o.Name, o.Res.Verdict, o.Res.Solver, o.Res.Ms)
+			}
+		}
 		for _, u := range unclaimed {
 			fmt.Println("unclaimed:", u)
 		}
